@@ -457,8 +457,11 @@ fn c05_one(ctx: &mut Ctx, c: &DayCase) {
     for p in PRAYERS {
         if let Ok(t) = d[&p] {
             if !t.extreme {
+                // within 12 hours of Dhuhr, both ends allowed: a time exactly 12 h away (rounding can
+                // produce it) counts as before Dhuhr for Imsaak/Fajr/Shurooq and after it for the others
                 let mut o = (secs(&t) - dh).rem_euclid(86400);
-                if o > 43200 {
+                let before = matches!(p, Prayer::Imsaak | Prayer::Fajr | Prayer::Shurooq);
+                if o > 43200 || (o == 43200 && before) {
                     o -= 86400;
                 }
                 seq.push((p, o));
@@ -719,7 +722,7 @@ pub fn c20(ctx: &mut Ctx, tier: &str, r: &mut Rng, js: &[Value], reqs: &[String]
         }
     };
     for c in cases_from(js, reqs) {
-        if lat(&c).abs() <= 45. {
+        if lat(&c).abs() <= 45. && (gmt(&c) - lon(&c) / 15.).abs() <= 3. {
             let c2 = c.with(|p| p.round_seconds = RoundSeconds::None);
             pairs(ctx, &c2, 1.);
         }
@@ -730,7 +733,8 @@ pub fn c20(ctx: &mut Ctx, tier: &str, r: &mut Rng, js: &[Value], reqs: &[String]
     }
     let n = if tier == "thorough" { 100000 } else { 2500 };
     for i in 0..n {
-        let c = plain(r.pick(&METHODS).0, gen_location(r, 45., 4.), boundary_rd(r));
+        // both configurations of a pair stay within 4 h of the meridian's own zone (DESIGN §14.3.8)
+        let c = plain(r.pick(&METHODS).0, gen_location(r, 45., 3.), boundary_rd(r));
         let d = r.pick(&[1., -1., 0.5, -0.5, 0.25]);
         if i == 0 {
             ctx.sample(c.to_json());
